@@ -383,6 +383,7 @@ def literal_rule(ctx, q, S, rp):
                     else:
                         st_, mdl = q.check(list(r_.pc), "literal-int-path")
                         ok_ = st_ == "unsat"
+                        mdl = None          # the deviation is in the rendering's type / width, not in particular bits: use the default probe
                 if not ok_:
                     bad = ("renders <%s as ToString>(%s)" % (shown_ty, shown), mdl)
                     break
